@@ -259,7 +259,9 @@ func ComparePair(mode string, base, v *Recorded) []Divergence {
 		for _, e := range rec.Ops {
 			if e.Op == "provide" || e.Op == "decorate" {
 				m[e.F] = NormVerdict(e.V)
-				if e.V != "ok" {
+				// a function dig must reject whatever the state (bad signature, bad options) is
+				// rejected in every order: it does not make order matter
+				if fn := rec.Cat.Fns[e.F]; e.V != "ok" && !(fn != nil && fn.Inv != "") {
 					all = false
 				}
 			}
